@@ -48,12 +48,19 @@ function buildOriginalMap (code, shape) {
     return true
   }
   const nlines = code.split('\n').length
+  const dev = new Map(shape.dev || [])
   toks.forEach((t, i) => {
     if (!keep(t, i)) return
+    // per-token deviations from the dense map (family D)
+    if (dev.get(i) === 'drop') return
+    if (dev.get(i) === 'sourceless') { segs.push({ gl: t.line, gc: t.col }); return }
     const seg = { gl: t.line, gc: t.col, src: (t.line + i) % nsrc, ol: t.line * 2 + 3, oc: t.col + 5 }
     // a stale map whose only mapping lies after every position of the file: nothing resolves in it
     if (shape.density === 'beyond') seg.gl = nlines + 4
     if (shape.density === 'with_sourceless' && i % 5 === 4) { segs.push({ gl: t.line, gc: t.col }); return }
+    if (dev.get(i) === 'other_source') { seg.src = (seg.src + 1) % nsrc; seg.ol += 100 }
+    if (dev.get(i) === 'col_plus_one') seg.gc += 1
+    if (dev.get(i) === 'named') { let ni = names.indexOf('dev_' + i); if (ni < 0) { ni = names.length; names.push('dev_' + i) } seg.name = ni }
     if (shape.names && /^[A-Za-z_$]/.test(t.text)) { let ni = names.indexOf('orig_' + t.text); if (ni < 0) { ni = names.length; names.push('orig_' + t.text) } seg.name = ni }
     segs.push(seg)
   })
@@ -108,7 +115,7 @@ function refComment (ref, mapText) {
 
 function makeLeafInput (pick) {
   const ref = REFS[pick.ref]
-  const shape = MAP_SHAPES[pick.shape]
+  const shape = pick.shapeObj || MAP_SHAPES[pick.shape]
   const urlForLook = ref.url ? (ref.url('{}').length > 60 ? 'gen.js.map' : ref.url('{}')) : 'gen.js.map'
   let body = LOOKALIKES[pick.look](ref.url && !/^data:/.test(ref.url('{}')) ? ref.url('{}') : urlForLook) + PROGRAMS[pick.prog]
   if (ref.two === true) body = body.replace('\n', ' //# sourceMappingURL=other.js.map\n')
@@ -139,7 +146,25 @@ async function build (tier) {
   ]
   const r = enumerate(dims, { k: tier === 'thorough' ? 3 : 2 })
   const leaves = r.leaves.map((l) => ({ key: [l.pick.prog, l.pick.ref, l.pick.shape, l.pick.chain, l.pick.comments, l.pick.look].join('¦'), pick: l.pick }))
-  return { leaves, stats: r.stats, bound: { deviations_k_over_program_mapshape_lookalike: tier === 'thorough' ? 3 : 2, refs: Object.keys(REFS).length, map_shapes: MAP_SHAPES.length }, alphabets: { programs: Object.keys(PROGRAMS), refs: Object.keys(REFS), map_shapes: MAP_SHAPES, lookalikes: Object.keys(LOOKALIKES) } }
+  // family D: the dense two-source map with up to kd of its tokens dropped / made source-less / re-targeted /
+  // moved by one column / named — every subset of <= kd tokens x every combination of those changes
+  const kd = tier === 'thorough' ? 3 : 2
+  const OPS = ['drop', 'sourceless', 'other_source', 'col_plus_one', 'named']
+  for (const prog of tier === 'thorough' ? ['one_hook', 'two_functions'] : ['one_hook']) {
+    const tp = tokenPositions(PROGRAMS[prog])
+    const n = tp.length
+    // moving a token onto the position of its neighbour would give two entries for one generated position
+    // (an ambiguous map): not generated
+    const adjacent = (i) => tp.some((q) => q.line === tp[i].line && q.col === tp[i].col + 1)
+    const rec = (start, devs) => {
+      r.stats.states++
+      if (devs.length) { leaves.push({ key: 'D¦' + prog + '¦' + devs.map((d) => d.join(':')).join(','), pick: { prog, ref: 'inline', shapeObj: { density: 'every_token', sources: 2, names: false, dev: devs }, chain: true, comments: false, look: 'none' } }); r.stats.leaves++ }
+      if (devs.length === kd) return
+      for (let i = start; i < n; i++) for (const op of OPS) { if (op === 'col_plus_one' && adjacent(i)) continue; r.stats.transitions++; rec(i + 1, devs.concat([[i, op]])) }
+    }
+    rec(0, [])
+  }
+  return { leaves, stats: r.stats, bound: { map_token_deviations_kd: tier === 'thorough' ? 3 : 2, deviations_k_over_program_mapshape_lookalike: tier === 'thorough' ? 3 : 2, refs: Object.keys(REFS).length, map_shapes: MAP_SHAPES.length }, alphabets: { programs: Object.keys(PROGRAMS), refs: Object.keys(REFS), map_shapes: MAP_SHAPES, lookalikes: Object.keys(LOOKALIKES) } }
 }
 
 function cfg (pick, chain) { return Object.assign({}, C.FULL, { chainSourceMap: chain, comments: pick.comments }) }
@@ -246,7 +271,7 @@ module.exports = {
   build,
   requests,
   check,
-  rule: 'leaf = program x reference kind (17: inline / relative / ./ / ../ / absolute / missing / directory / denied / empty / malformed / not-a-map / index map / bad base64 / none / block form / two comments) x original-map shape (28: density, 1-3 sources, names, sourceRoot, sourcesContent, source-less segments, last line only, nothing resolves) x chain x comments x look-alike text, k deviations among program/shape/look-alike; each leaf = three real calls (as configured, chaining off, without the reference comment); non-trivial = modified; distinct by (input text, chain, comments)',
+  rule: 'leaf = program x reference kind (17: inline / relative / ./ / ../ / absolute / missing / directory / denied / empty / malformed / not-a-map / index map / bad base64 / none / block form / two comments) x original-map shape (28: density, 1-3 sources, names, sourceRoot, sourcesContent, source-less segments, last line only, nothing resolves) x chain x comments x look-alike text, k deviations among program/shape/look-alike; plus family D: the dense map with every subset of <= kd tokens dropped / source-less / re-targeted / shifted / named; each leaf = three real calls (as configured, chaining off, without the reference comment); non-trivial = modified; distinct by (input text, chain, comments)',
   explanation: 'explicit enumeration of reference kinds, reader answers and map shapes; oracle = independent two-step composition (rewrite map from the chaining-off call, generator-built original map, global greatest-lower-bound, sourceRoot resolution) compared entry by entry with the decoded trailer; fallback must equal the plain rewrite map; content minus trailer must be byte-identical (up to an emptied comment remnant) to the content of the same program without the reference',
   assumptions: ['original maps are synthetic (any valid map must compose)', 'an emptied `//` or `/**/` remnant of the removed comment is tolerated', 'a sourceMappingURL comment that is followed by more code is not judged (only the end-of-file comment is the superseded one)']
 }
